@@ -2158,6 +2158,18 @@ static bool is_yaml_null_value(const char *s)
 }
 
 /*
+ * key_style: choose the YAML scalar style of a map key
+ *   @key: quoted key
+ */
+static yaml_scalar_style_t key_style(const char *key)
+{
+    if (is_yaml_null_value(key)) {
+	return YAML_DOUBLE_QUOTED_SCALAR_STYLE;
+    }
+    return YAML_ANY_SCALAR_STYLE;
+}
+
+/*
  * add_mapping_entry: add a simple scalar tag to value mapping entry
  *   @vymlp:    common argument structure
  *   @t_map:    map into which we're adding
@@ -2173,7 +2185,7 @@ static int add_mapping_entry(vnaproperty_yaml_t *vymlp, int t_map,
     errno = 0;
     if ((t_key = yaml_document_add_scalar(document, NULL,
 		    (yaml_char_t *)key, strlen(key),
-		    YAML_ANY_SCALAR_STYLE)) == 0) {
+		    key_style(key))) == 0) {
 	if (errno == 0) {
 	    errno = EINVAL;
 	}
